@@ -21,7 +21,7 @@ RULE = ("a small lattice die (sides 4-10 units, up to 3 blockages, up to 2 fixed
         "local APOPT binary.  An exception (solver failure, module without any cell) is 'did not return' and is only counted.  "
         "When it returns: cells pairwise disjoint and inside the die, ratios in [0, 1], per-cell sum <= 1 + 1e-4, module centres "
         "finite and inside the die, fixed modules' rectangles identical and their cells owned >= 1 - 1e-6 with strangers <= 1e-4, "
-        "movable hard modules keep every rectangle's size and the offsets between rectangles up to a mirror per axis.  "
+        "movable hard modules (one rectangle, L, or a staircase that is no single-trunk orthogon) keep every rectangle's size and the offsets between rectangles up to a mirror per axis.  "
         "extract: extract_solution on synthetic solutions in which hard modules are translated and flippable ones mirrored; the "
         "resulting rectangles must be where the solution says.  "
         "non-trivial = returned and (a cell shared by two modules or a hard module moved); distinct = distinct case.")
@@ -85,7 +85,8 @@ def run_glb(c):
     except BaseException as e:
         if isinstance(e, (KeyboardInterrupt, SystemExit, MemoryError)) or type(e).__name__ in ("CaseTimeout",):
             raise
-        return dict(nt=False, cls=["did-not-return", "did-not-return:" + type(e).__name__] + (["over-full-did-not-return"] if c.get("overfull") else []) + (["stacked-did-not-return"] if c.get("stacked") else []))
+        return dict(nt=False, cls=["did-not-return", "did-not-return:" + type(e).__name__] + (["over-full-did-not-return"] if c.get("overfull") else []) + (["stacked-did-not-return"] if c.get("stacked") else [])
+                    + (["soft-module-on-top-of-a-fixed-block-did-not-return"] if c.get("on_top") else []))
     whole = (Fr(0), Fr(0), Fr(W), Fr(H))
     tol = Fr(size) / 10 ** 9
     cells = [(X.of_frame(a.rect), a) for a in alloc.allocations]
@@ -167,6 +168,8 @@ def run_glb(c):
     cls = ["returned", "max_iter=%d" % c["max_iter"], "refine-" + c["refine"][0]]
     if c.get("pocket"):
         cls.append("isolated-pocket")
+    if c.get("on_top"):
+        cls.append("soft-module-on-top-of-a-fixed-block")
     if split_fixed:
         cls.append("fixed-cells-refined")  # (threshold 1: even fully owned cells are split between two optimisations)
     kinds = {m["kind"] for m in c["modules"]}
@@ -185,7 +188,7 @@ def run_glb(c):
 
 @st.composite
 def case_s(draw):
-    scen = draw(_i(0, 6))  # 0: a die with fixed modules whose cells are refined between two optimisations (threshold 1)
+    scen = draw(_i(0, 7))  # 0: a die with fixed modules whose cells are refined between two optimisations (threshold 1)
     # scenario 4: soft modules stacked on one centre on a grid of >= 9 cells (some cell is wholly covered by several modules)
     if scen == 6:
         # a pocket: a blockage strip of full height cuts a part of the die off (a cell that touches no other cell); one module nearly
@@ -199,6 +202,19 @@ def case_s(draw):
         nets = [dict(m=["M0", "M1"], w=draw(st.sampled_from([None, 2]))), dict(m=["M1", "M2"], w=None), dict(m=["M2", "F0"], w=None)]
         return dict(die=dc, refine=["split", 2.0, draw(st.sampled_from([3, 4, 5]))], modules=mods, nets=nets, pocket=True,
                     threshold=draw(st.sampled_from([0.8, 0.85])), alpha=draw(st.sampled_from([0.9, 1])), max_iter=draw(st.sampled_from([2, 3])))
+    if scen == 7:
+        # a big soft module sits right on top of a small fixed block, on a die refined finer than the module's square: the fixed cell and
+        # all the cells around it lie deep inside the module (whatever glbfloor RETURNS for it is judged like any result)
+        Wd = draw(_i(10, 14))
+        f0 = Wd // 2 - 1
+        dc = dict(unit=draw(st.sampled_from(["1", "0.5", "2"])), W=Wd, H=Wd, regions=[], fixed=[[[f0, f0, f0 + 2, f0 + 2]]])
+        side = draw(_i(6, Wd - 3))
+        mods = [dict(name="M0", kind="soft", area=side * side, c=[2 * f0 + 2 + draw(_i(-1, 1)), 2 * f0 + 2 + draw(_i(-1, 1))])]
+        if draw(st.booleans()):
+            mods.append(dict(name="M1", kind="soft", area=draw(_i(1, 4)), c=[2, 2]))
+        nets = [dict(m=["M0", "F0"], w=draw(st.sampled_from([None, 2])))] + ([dict(m=["M1", "M0"], w=None)] if len(mods) > 1 else [])
+        return dict(die=dc, refine=["split", 2.0, draw(st.sampled_from([16, 24, 32]))], modules=mods, nets=nets, on_top=True,
+                    threshold=draw(st.sampled_from([0.9, 0.8, 0.7])), alpha=draw(st.sampled_from([0.3, 0.7, 1])), max_iter=draw(st.sampled_from([1, 1, 2])))
     empty = scen == 4 or (scen != 0 and draw(_i(0, 2)) == 0)
     dc = draw(D.die_case(max_regions=0 if empty else 3, max_fixed=2, min_side=4, max_side=10, allow_fixed=not empty,
                          force_fixed=scen in (0, 1), units=["1", "1", "0.5", "2", "0.1", "2.5", "10"]))
